@@ -1337,6 +1337,17 @@ def _slow_mark(x, path=None):
     return x
 
 
+def _slow_stamp(x, path=None):
+    # one line when the call starts, one when it ends, each with the wall clock (the same clock in every process of this machine)
+    import time
+    with open(path, 'a') as fh:
+        fh.write(f'S {x} {time.time():.4f}\n')
+    time.sleep(0.25)
+    with open(path, 'a') as fh:
+        fh.write(f'E {x} {time.time():.4f}\n')
+    return x
+
+
 class _StackBoom(Exception):
     pass
 
@@ -1421,7 +1432,7 @@ def backend_cancellation(ld, r, tier):
                         continue
                     fd, path = tempfile.mkstemp(prefix='c05_')
                     os.close(fd)
-                    fn = functools.partial(_slow_mark, path=path)
+                    fn = functools.partial(_slow_stamp, path=path)
                     src = ld.new(list(range(n)))
                     runs += 1
                     t0 = time.time()
@@ -1436,9 +1447,16 @@ def backend_cancellation(ld, r, tier):
                             common.tick()
                             import gc
                             gc.collect()
-                        took = time.time() - t0
+                        t_back = time.time()
+                        took = t_back - t0
                         time.sleep(1.6)
-                        started = len(open(path).read().split())
+                        stamps = [l.split() for l in open(path).read().split('\n') if l.strip()]
+                        started = len([1 for st in stamps if st[0] == 'S'])
+                        # once control is back no user code runs: no call starts or is still running after the stop returned
+                        late = sorted(set(int(st[1]) for st in stamps if float(st[2]) > t_back + 0.05))
+                        if late:
+                            fails.append(f'backend {be} {api}: after the early {how} (having received {k} examples) had returned control, user code still ran for the examples {late} '
+                                         f'(a call started or ended up to {max(float(st[2]) for st in stamps) - t_back:.2f}s after the return); buffer_size={b}, workers={w}')
                     except Exception as e:
                         fails.append(f'backend {be} {api}: early {how} after {k} examples raised {type(e).__name__}: {e}')
                         continue
